@@ -4,25 +4,25 @@
 set -u
 WT=$1
 cd $WT || exit 2
-git diff -- include src > /tmp/seed_patch.diff
-[ -s /tmp/seed_patch.diff ] || { echo "no change applied in $WT"; exit 2; }
+git diff -- include src > /tmp/seed_patch_$$.diff
+[ -s /tmp/seed_patch_$$.diff ] || { echo "no change applied in $WT"; exit 2; }
 build_demo() {
   if [ -f OUT/demo.cpp ]; then g++ -std=c++14 -O1 -w ${SEED_FLAGS:-} -DPARMCB_VERIF -DPARMCB_INVARIANTS_CHECK -I$WT/include -I$WT/_build/include OUT/demo.cpp -o OUT/demo.bin -ltbb -lboost_timer -lpthread 2>&1 | tail -3; fi
 }
 run_demo() {
-  if [ -f OUT/demo.cpp ]; then (cd OUT && timeout 600 ./demo.bin >/tmp/seed_demo.out 2>&1; echo $?)
-  else (cd OUT && timeout 900 bash ./demo.sh >/tmp/seed_demo.out 2>&1; echo $?); fi
+  if [ -f OUT/demo.cpp ]; then (cd OUT && timeout 600 ./demo.bin >/tmp/seed_demo_$$.out 2>&1; echo $?)
+  else (cd OUT && timeout 900 bash ./demo.sh >/tmp/seed_demo_$$.out 2>&1; echo $?); fi
 }
 echo "== tests with the change"
 cmake -S $WT -B $WT/_build -G Ninja -DCMAKE_BUILD_TYPE=RelWithDebInfo >/dev/null 2>&1
 cmake --build $WT/_build -j8 2>&1 | tail -1
 ctest --test-dir $WT/_build -j4 2>&1 | grep -E "tests passed|tests failed"
 echo "== demo with the change (expect non-zero)"
-build_demo; W=$(run_demo); echo "exit=$W"; tail -3 /tmp/seed_demo.out
+build_demo; W=$(run_demo); echo "exit=$W"; tail -3 /tmp/seed_demo_$$.out
 echo "== demo without the change (expect 0)"
-git apply -R /tmp/seed_patch.diff
+git apply -R /tmp/seed_patch_$$.diff
 if [ -f OUT/demo.sh ]; then cmake --build $WT/_build -j8 2>&1 | tail -1; fi
-build_demo; WO=$(run_demo); echo "exit=$WO"; tail -2 /tmp/seed_demo.out
-git apply /tmp/seed_patch.diff
+build_demo; WO=$(run_demo); echo "exit=$WO"; tail -2 /tmp/seed_demo_$$.out
+git apply /tmp/seed_patch_$$.diff
 if [ -f OUT/demo.sh ]; then cmake --build $WT/_build -j8 2>&1 | tail -1; fi
 echo "RESULT with=$W without=$WO"
